@@ -76,4 +76,170 @@ theorem Tie_filter_process (c : PV → Except Err PV) (rows : List PV) (cond : P
     | error e => simp [Except.map]
     | ok l => simp [Except.map]
 
+/-! ## `deduplicate.deduper` -/
+
+/-- `tuple(row[k] for k in pk)` -/
+def keyOfPV (pk : List PV) (row : PV) : Except Err PV :=
+  (pk.mapM (fun k => opGetitem [row, k])).map PV.tuple
+
+/-- the specification: in order, the first row of each distinct key (`seen` = keys met so far, in order) -/
+def dedupSpec (pk : List PV) : List PV → List PV → Except Err (List PV)
+  | [], _ => .ok []
+  | r :: rs, seen => do
+    let k ← keyOfPV pk r
+    if PV.elem k seen then dedupSpec pk rs seen
+    else do
+      let rest ← dedupSpec pk rs (seen ++ [k])
+      pure (r :: rest)
+
+theorem compLoop_list (f : PV → Except Err PV) (g : PV → Except Err (Option PV))
+    (hg : ∀ v, g v = (f v).map some) (xs acc : List PV) :
+    compLoop .list g xs acc = (xs.mapM f).map (fun l => PV.list (acc ++ l)) := by
+  induction xs generalizing acc with
+  | nil => simp [compLoop, Except.map, pure, Except.pure]
+  | cons x xs ih =>
+    simp only [compLoop, bind, List.mapM_cons]
+    rw [hg]
+    cases hf : f x with
+    | error e => simp [Except.map, Except.bind]
+    | ok r =>
+      simp only [Except.map, Except.bind]
+      rw [ih]
+      cases List.mapM f xs <;> simp [Except.map, pure, Except.pure]
+
+/-- the key comprehension `row[k] for k in pk` -/
+def keyComp : E :=
+  .comp .list (.call .getitem (.cons (.var "row") (.cons (.var "k") .nil))) "k" (.var "pk") (.const (.bool true))
+
+theorem keyComp_eval (ext : Ext) (env : Env) (pk : List PV) (r : PV)
+    (hrow : env.lookup "row" = some r) (hpk : env.lookup "pk" = some (.list pk)) :
+    evalE ext env keyComp = (pk.mapM (fun k => opGetitem [r, k])).map PV.list := by
+  have hc := compLoop_list (fun k => opGetitem [r, k])
+    (fun v => do
+        let env' := Env.set env "k" v
+        let c ← evalE ext env' (.const (.bool true))
+        if c.truthy then (do let r ← evalE ext env' (.call .getitem (.cons (.var "row") (.cons (.var "k") .nil))); pure (some r)) else pure Option.none)
+    (by intro v
+        simp [evalE, evalArgs, applyFn, builtinOp, Env.get, Env.set, List.lookup, PV.truthy, bind, Except.bind, Except.map, pure,
+          Except.pure, hrow, show ("row" == "k") = false by decide]) pk []
+  unfold keyComp
+  simp only [evalE, Env.get, hpk, iterOf, bind, Except.bind]
+  simp only [List.nil_append] at hc
+  exact hc
+
+/-- the loop body of `deduper` -/
+def dedupBody : S :=
+  (.seq (.assign "key" (.call .tuple_ (.cons keyComp .nil)))
+    (.seq (.ite (.call .in_ (.cons (.var "key") (.cons (.var "keys") .nil))) .continue_ .skip)
+      (.seq (.mut "keys" "add" (.cons (.var "key") .nil)) (.yield (.var "row")))))
+
+/-- the loop invariant on the environment: `pk` and `keys` are what the specification carries -/
+def DedupEnv (pk seen : List PV) (env : Env) : Prop :=
+  env.lookup "pk" = some (.list pk) ∧ env.lookup "keys" = some (.set seen)
+
+/-- the environment after one iteration -/
+def dedupEnv' (seen : List PV) (env : Env) (r k : PV) : Env :=
+  if PV.elem k seen then ("key", k) :: ("row", r) :: env
+  else ("keys", .set (seen ++ [k])) :: ("key", k) :: ("row", r) :: env
+
+theorem dedup_body_step (ext : Ext) (pk seen : List PV) (env : Env) (out : List PV) (r : PV) (h : DedupEnv pk seen env) :
+    exec ext dedupBody { env := ("row", r) :: env, out := out } =
+      (keyOfPV pk r).bind (fun k =>
+        if PV.elem k seen then .ok (.cont, { env := dedupEnv' seen env r k, out := out })
+        else .ok (.next, { env := dedupEnv' seen env r k, out := out ++ [r] })) := by
+  obtain ⟨hpk, hkeys⟩ := h
+  have hcomp := keyComp_eval ext (("row", r) :: env) pk r (by simp [List.lookup])
+    (by simp [List.lookup, show ("pk" == "row") = false by decide, hpk])
+  unfold dedupBody
+  generalize keyComp = C at hcomp ⊢
+  simp only [exec, evalE, evalArgs, applyFn, builtinOp, Env.get, Env.set, bind, Except.bind, hcomp, keyOfPV]
+  cases hm : List.mapM (fun k => opGetitem [r, k]) pk with
+  | error e => simp [Except.map, Except.bind]
+  | ok l =>
+    simp only [Except.map, Except.bind, opTuple, iterOf, List.lookup, opIn, containsPV, mutate, dedupEnv',
+      show ("key" == "key") = true by decide, show ("keys" == "key") = false by decide, show ("keys" == "row") = false by decide,
+      show ("keys" == "keys") = true by decide, show ("key" == "keys") = false by decide, show ("row" == "keys") = false by decide,
+      show ("row" == "key") = false by decide, show ("row" == "row") = true by decide, hkeys]
+    by_cases he : PV.elem (PV.tuple l) seen = true
+    · simp [he, PV.truthy, List.lookup, hkeys, mutate]
+    · simp [he, PV.truthy, List.lookup, hkeys, mutate]
+
+theorem dedupEnv'_inv (pk seen : List PV) (env : Env) (r k : PV) (h : DedupEnv pk seen env) :
+    DedupEnv pk (if PV.elem k seen then seen else seen ++ [k]) (dedupEnv' seen env r k) := by
+  obtain ⟨hpk, hkeys⟩ := h
+  unfold dedupEnv' DedupEnv
+  by_cases he : PV.elem k seen = true
+  · simp [he, List.lookup, hpk, hkeys, show ("pk" == "key") = false by decide, show ("pk" == "row") = false by decide,
+      show ("keys" == "key") = false by decide, show ("keys" == "row") = false by decide]
+  · simp [he, List.lookup, hpk, show ("pk" == "key") = false by decide, show ("pk" == "row") = false by decide,
+      show ("pk" == "keys") = false by decide]
+
+theorem dedup_loop (ext : Ext) (pk : List PV) (rows seen : List PV) (st : St) (h : DedupEnv pk seen st.env) :
+    (loopFor (exec ext dedupBody) (bind1 "row") rows st).map (fun r => r.2.out)
+      = (dedupSpec pk rows seen).map (fun l => st.out ++ l) := by
+  induction rows generalizing seen st with
+  | nil => simp [loopFor, dedupSpec, Except.map]
+  | cons r rs ih =>
+    have hb := dedup_body_step ext pk seen st.env st.out r h
+    simp only [loopFor, dedupSpec, bind1, bind, Env.set, Except.bind]
+    rw [hb]
+    cases hk : keyOfPV pk r with
+    | error e => simp [Except.map, Except.bind]
+    | ok k =>
+      have hinv := dedupEnv'_inv pk seen st.env r k h
+      simp only [Except.bind]
+      by_cases he : PV.elem k seen = true
+      · simp only [he, if_true] at hinv ⊢
+        rw [ih seen _ hinv]
+      · simp only [he] at hinv ⊢
+        simp only [Bool.false_eq_true, if_false] at hinv ⊢
+        rw [ih (seen ++ [k]) _ hinv]
+        cases dedupSpec pk rs (seen ++ [k]) <;> simp [Except.map, pure, Except.pure]
+
+/-- a ResourceWrapper-like object: `rows.res.descriptor['schema']` and the rows it iterates over -/
+def rowsObj (schema : List (PV × PV)) (rows : List PV) : PV :=
+  .dict [(.str "res", .dict [(.str "descriptor", .dict [(.str "schema", .dict schema)])]), (.str "__iter__", .list rows)]
+
+theorem deduper_body_is : Live.Py.deduper.body =
+    (.seq (.assign "pk" (.call .get (.cons (.call .getitem (.cons (.call .attr (.cons (.call .attr (.cons (.var "rows")
+        (.cons (.const (.str "res")) .nil))) (.cons (.const (.str "descriptor")) .nil))) (.cons (.const (.str "schema")) .nil)))
+        (.cons (.const (.str "primaryKey")) (.cons (.call .mkList .nil) .nil)))))
+      (.ite (.call .eq (.cons (.call .len (.cons (.var "pk") .nil)) (.cons (.const (.int 0)) .nil))) (.yieldFrom (.var "rows"))
+        (.seq (.assign "keys" (.call .set_ .nil)) (.forIn "row" (.var "rows") dedupBody)))) := by rfl
+
+/-- `deduper`: with a primary key, in order the first row of each distinct key value (nothing else, nothing twice) -/
+theorem Tie_deduper (ext : Ext) (pk : List PV) (hpk : pk ≠ []) (rows : List PV) :
+    callFn ext Live.Py.deduper [rowsObj [(.str "fields", .list []), (.str "primaryKey", .list pk)] rows]
+      = (dedupSpec pk rows []).map PV.list := by
+  have hl := dedup_loop ext pk rows []
+    { env := [("keys", .set []), ("pk", .list pk), ("rows", rowsObj [(.str "fields", .list []), (.str "primaryKey", .list pk)] rows)], out := [] }
+    (by simp [DedupEnv, List.lookup, show ("pk" == "keys") = false by decide])
+  have hlen : ((pk.length : Int) == 0) = false := by
+    cases pk with
+    | nil => exact absurd rfl hpk
+    | cons a as => simp; omega
+  unfold callFn
+  have hp : Live.Py.deduper.params = ["rows"] := by rfl
+  have hg : Live.Py.deduper.gen = true := by rfl
+  rw [deduper_body_is, hp, hg]
+  simp only [rowsObj] at hl ⊢
+  simp [bindParams, exec, evalE, evalArgs, applyFn, builtinOp, Env.get, Env.set, List.lookup, bind, Except.bind, opAttr, opGetitem,
+    opGet, opMkList, opLen, opEq, opSet, PV.lookup, PV.beq, PV.truthy, iterOf, Except.map, hlen]
+  revert hl
+  cases loopFor (exec ext dedupBody) (bind1 "row") rows _ with
+  | error e => cases dedupSpec pk rows [] <;> simp [Except.map]
+  | ok v => cases dedupSpec pk rows [] <;> simp [Except.map]
+
+/-- `deduper` without a primary key (absent or empty): every row, unchanged -/
+theorem Tie_deduper_nopk (ext : Ext) (rows : List PV) :
+    callFn ext Live.Py.deduper [rowsObj [(.str "fields", .list [])] rows] = .ok (.list rows)
+    ∧ callFn ext Live.Py.deduper [rowsObj [(.str "fields", .list []), (.str "primaryKey", .list [])] rows] = .ok (.list rows) := by
+  have hp : Live.Py.deduper.params = ["rows"] := by rfl
+  have hg : Live.Py.deduper.gen = true := by rfl
+  constructor <;>
+  · unfold callFn
+    rw [deduper_body_is, hp, hg]
+    simp [rowsObj, bindParams, exec, evalE, evalArgs, applyFn, builtinOp, Env.get, Env.set, List.lookup, bind, Except.bind, opAttr,
+      opGetitem, opGet, opMkList, opLen, opEq, PV.lookup, PV.beq, PV.truthy, iterOf, Except.map]
+
 end Df.Tie
